@@ -49,6 +49,10 @@ pub struct PoolMember {
     pub ctx: Context,
     pub rng_seed: u64,
     pub defect: Option<Defect>,
+    /// aggregated members only: the statement handed to the verifier carries a seed in its public
+    /// `seed_nonce` field (the constructor would not build that, the field is public)
+    #[serde(default)]
+    pub owner_seed_on_aggregate: bool,
 }
 
 #[derive(Clone, Debug, Serialize, Deserialize, PartialEq, Eq)]
@@ -111,6 +115,10 @@ fn prepare<G: Group>(sc: &Scenario, idx: usize, st: &mut RunStats, rng: &mut Sim
     };
     let mut ctx = pm.ctx.clone();
     let mut statement = built.statement.clone();
+    if pm.owner_seed_on_aggregate && pm.m >= 2 {
+        statement.seed_nonce = Some(scalar_from_seed("c03forced", pm.rng_seed, 0));
+        st.probe("aggregated_statement_carrying_a_seed");
+    }
     let mut proof = proof;
     if let Some(d) = &pm.defect {
         st.fault(&format!("defect_{}", match d {
@@ -184,6 +192,27 @@ fn prepare<G: Group>(sc: &Scenario, idx: usize, st: &mut RunStats, rng: &mut Sim
             ));
         }
         let mask = masks_of(&r).and_then(|m| m.into_iter().next().flatten());
+        // sanity of the reference itself: a response scalar off by one or a replaced A cannot satisfy
+        // the relation, so a verifying mode must refuse such a member on its own
+        if ok
+            && a != tari_bulletproofs_plus::range_proof::VerifyAction::RecoverOnly
+            && matches!(pm.defect, Some(Defect::D1Plus(_)) | Some(Defect::R1Plus) | Some(Defect::APoint))
+            && sc.bits * pm.m >= 2
+        {
+            return Err(Violation::new(
+                "invalid_member_verifies_on_its_own",
+                format!("{:?}", pm.defect),
+                format!(
+                    "pool[{}] (m={}, capacity {}, seed on aggregate: {}) carries defect {:?} yet verifies on its own in mode {}",
+                    idx,
+                    pm.m,
+                    pm.cap,
+                    pm.owner_seed_on_aggregate && pm.m >= 2,
+                    pm.defect,
+                    action_name(a)
+                ),
+            ));
+        }
         single.push((ok, render_verify(&r), mask));
     }
     st.event(format!(
@@ -552,10 +581,10 @@ impl Check for C03 {
             // commitments, correct statement and context): duplicates the channel delivers next to
             // each other
             if matches!(defect, Some(Defect::WrongContext) | Some(Defect::PromisePlus)) && rng.chance(1, 2) {
-                pool.push(PoolMember { m, cap, wit: wit.clone(), ctx: ctx.clone(), rng_seed, defect: None });
+                pool.push(PoolMember { m, cap, wit: wit.clone(), ctx: ctx.clone(), rng_seed, defect: None, owner_seed_on_aggregate: false });
                 twins.push((pool.len() - 1, pool.len()));
             }
-            pool.push(PoolMember { m, cap, wit, ctx, rng_seed, defect });
+            pool.push(PoolMember { m, cap, wit, ctx, rng_seed, defect, owner_seed_on_aggregate: rng.chance(1, 3) });
         }
         let n_pool = pool.len();
         let valid: Vec<usize> = (0..n_pool).filter(|i| pool[*i].defect.is_none()).collect();
@@ -740,6 +769,7 @@ impl Check for C03 {
             "mask_alignment_checked",
             "honest_message_next_to_defective_twin",
             "defect_undecodable_l",
+            "aggregated_statement_carrying_a_seed",
             "defect_extra_round",
             "shape_empty",
             "shape_length_mismatch",
